@@ -11,6 +11,7 @@ PROPS = {
     'C07': dict(verus=['u_hser'], level='proof', technique='contract-based deductive verification (Verus) of the verbatim-extracted HtmlSerializer escaping / raw-text logic against a spec escape function with proved reversibility and confinement lemmas'),
     'C08': dict(verus=['u_htok'], level='proof', technique=HTOK_T),
     'C09': dict(verus=['u_htok'], level='proof', technique=HTOK_T),
+    'C10': dict(verus=['u_utf8'], level='proof', technique='contract-based deductive verification (Verus) of the verbatim-extracted incremental UTF-8 decoder (utf8_decode.rs, Utf8LossyDecoder::process/finish) against a byte-level maximal-subpart specification of lossy decoding; chunking independence by a proved induction over the per-call contract'),
     'C13': dict(
         verus=['u_small', 'u_bq'],
         kani_quick=[], kani_thorough=[],
